@@ -158,6 +158,11 @@ def execute(vecs, workers):
         if not os.path.exists(p):
             with open(p, "w") as f:
                 f.write("% placeholder: gives the source name a file identity; the loaded text comes from the harness\n")
+    for v in vecs:      # a probe the abstract machine did not finish (divergence) would also hang the real one: generator error
+        for st in v["steps"]:
+            for p in st["probes"]:
+                if p["status"] != "done" or p["n"] != 1:
+                    raise common.ToolError("the specification did not settle probe %r: %s/%s" % (p["key"], p["status"], p["n"]))
     jobs = [make_job(i, v) for i, v in enumerate(vecs)]
     return jobs, run_jobs(jobs, workers=workers, job_timeout=120)
 
